@@ -253,6 +253,9 @@ func verifStub_targetDuration(segments []muxerSegment) int {
 			ret = v
 		}
 	}
+	if ret == 0 {
+		ret = 1 // never 0: the playlist decoder (and so the library's own client) treats TARGETDURATION:0 as missing
+	}
 	return ret
 }
 
